@@ -97,19 +97,19 @@ PROPS["C07"] = dict(
 
 PROPS["C01"] = dict(
     level="proof",
-    verus=["c01_tokenizer", "c01_get_tokens", "c01_lookup", "c04_partition", "c04_precedence"],
+    verus=["c01_tokenizer", "c01_get_tokens", "c01_index", "c01_lookup", "c04_partition", "c04_precedence"],
     labels=["C01.", "C04.new.", "C04.check."] + MASK,
     kani=[],
     trusted=["per-rule matcher uninterpreted (C02/C03)", "probe sequence of a request (iterator chain) materialised (R5)",
              "seahash (uninterpreted), char::is_alphanumeric (uninterpreted token alphabet)",
              "char_indices(): offsets are increasing character boundaries starting at 0 (R5 helper contract)",
-             "bucket choice in NetworkFilterList::new / add_filter (best token among get_tokens) not yet under contract",
+             "insert_dup (Entry API + binary_search_by closure): keeps what is there, adds the rule under the key; token_histogram; the closure that pairs each rule with get_tokens() in NetworkFilterList::new; NetworkFilterList::optimize",
              "the string-level lemma 'a pattern token pinned as stated is a whole token of every matching URL' is not mechanised"],
     assumptions=["no 64-bit hash collision", "URLs with fewer than 127 tokens (buffer limit clause of the tokenizer contract)"],
     level_text="Verus proves, for all strings, that the tokenizer emits exactly the admissible maximal runs (sound and complete up to the buffer limit) with the skip rules the callers request, "
-               "that every token get_tokens files a rule under is of a kind guaranteed to be probed (anchor-derived skip rules from the statement, not from the code), that check/check_all return exactly the "
+               "that every token get_tokens files a rule under is of a kind guaranteed to be probed (anchor-derived skip rules from the statement, not from the code), that batch construction and add_filter file a rule, for each of its token groups, under a token of that group or the always-probed bucket 0 and under nothing else, that check/check_all return exactly the "
                "matching tag-active rules of the probed buckets, and the category split and precedence",
-    level_note="bucket choice and the final string lemma are trusted/not mechanised; see trusted_base",
+    level_note="the final string lemma (pinned pattern token => whole URL token) is not mechanised; see trusted_base",
     design_ref="DESIGN.md section 4, C01",
 )
 
